@@ -29,6 +29,14 @@ pub fn case(args: &Args, rng: &mut Rng, out: &mut Streams, dist: &mut Dist, scra
   g0.max_txs = 3;
   // generator snapshots: gens[h] = generator after the block at height h
   let mut gens = vec![g0];
+  // protocol model: block hash -> small id; settings as the index sees them
+  let mut ids: std::collections::HashMap<bitcoin::BlockHash, usize> = std::collections::HashMap::new();
+  let commit_interval = extra
+    .iter()
+    .position(|a| a == "--commit-interval")
+    .map(|i| extra[i + 1].parse::<u64>().unwrap())
+    .unwrap_or(5000);
+  out.emit(&format!("proto.reset {commit_interval} {s} {m} 0"), "ok");
   let steps = 3 + rng.below(args.get("steps").map(|v| v.parse().unwrap()).unwrap_or(5u64));
   let timeout = Duration::from_secs(args.get("hang-secs").map(|v| v.parse().unwrap()).unwrap_or(15u64));
   let mut history = String::new();
@@ -66,6 +74,55 @@ pub fn case(args: &Args, rng: &mut Rng, out: &mut Streams, dist: &mut Dist, scra
     let trace = points::take_trace();
     points::reset(false);
     let restores = trace.iter().filter(|(n, _)| n == "reorg:post-commit").count();
+    // protocol line: node chain as ids; implementation answer from its dump + trace
+    {
+      let node_ids: Vec<String> = {
+        let state = node.core.state();
+        state.hashes.clone()
+      }
+      .iter()
+      .map(|h| {
+        let n = ids.len();
+        ids.entry(*h).or_insert(n).to_string()
+      })
+      .collect();
+      let rows = ix.index.verif_dump().unwrap();
+      let chain_ids: Vec<String> = rows
+        .iter()
+        .filter(|r| r.starts_with("header "))
+        .map(|r| {
+          let hash: bitcoin::BlockHash = r.split(' ').nth(2).unwrap().parse().unwrap();
+          ids.get(&hash).map(|i| i.to_string()).unwrap_or("?".into())
+        })
+        .collect();
+      let lastsp = rows
+        .iter()
+        .find(|r| r.starts_with("bookkeeping statistic LastSavepointHeight "))
+        .map(|r| r.rsplit(' ').next().unwrap().to_string())
+        .unwrap_or("0".into());
+      let evs: Vec<String> = trace
+        .iter()
+        .filter_map(|(n, h)| match n.as_str() {
+          "commit:post-durable" => Some(format!("C{h}")),
+          "savepoint:deleted-uncommitted" => Some(format!("D{h}")),
+          "savepoint:post-create-commit" => Some(format!("S{h}")),
+          "reorg:post-commit" => Some(format!("R{h}")),
+          _ => None,
+        })
+        .collect();
+      let (o, evs) = match &outcome {
+        UpdateOutcome::Ok => ("ok".to_string(), evs),
+        UpdateOutcome::Err(e) if e.contains("unrecoverable reorg") => ("unrecoverable".to_string(), evs),
+        UpdateOutcome::Hang => ("hang".to_string(), Vec::new()),
+        UpdateOutcome::Err(e) => (format!("err:{}", e.replace(' ', "_")), evs),
+        UpdateOutcome::Panic(p) => (format!("panic:{}", p.replace(' ', "_")), evs),
+      };
+      let join = |v: &Vec<String>| if v.is_empty() { "-".to_string() } else { v.join(",") };
+      out.emit(
+        &format!("proto.update 0 40 {}", join(&node_ids)),
+        &format!("{o} chain={} lastsp={lastsp} ev={}", join(&chain_ids), join(&evs)),
+      );
+    }
     let desc = format!(
       "case={case} step={step} s={s} m={m} tip={} history={history} restores={restores}",
       node.height()
